@@ -142,7 +142,14 @@ def _ref_partition(ctx, x, bits):
 
 def h_read(ctx, bits):
     x = ctx.fresh("x", 0, (1 << bits) - 1)
-    f = F.ForwardFrame(bits, x)
+    # the serial drivers and frame concatenation hand over plain Frame objects: same bits, same address
+    shape = ("forward", "plain", "concatenated")[ctx.fresh_choice("frame_object", 3)]
+    if shape == "forward":
+        f = F.ForwardFrame(bits, x)
+    elif shape == "plain":
+        f = F.Frame(bits, x)
+    else:
+        f = F.ForwardFrame(8, x >> (bits - 8)) + F.ForwardFrame(bits - 8, x & ((1 << (bits - 8)) - 1))
     st, a = call(A.from_frame, f)
     if st == "exc":
         ctx.fail("address decode raised %r" % (a,), key="read/raised")
